@@ -1188,9 +1188,23 @@ def run_residue_schedules(ctx):
         return {'causes': list(causes), 'mode': mode, 'others': False, 'conn': False, 'side': [kind],
                 'emit_order': list(pos if isinstance(pos, list) else EMIT_POSITIONS[pos]), 'residue': True}
 
+    def midway(cfg, obs):
+        """emit-free schedules: was the transport lost while another terminating cause of the same session was
+        suspended midway (released before the loss started, released again after that)?"""
+        li = cfg['causes'].index('lost')
+        flat = [x for ch in obs['sched'] for x in (ch if isinstance(ch, list) else [ch])]
+        if li not in flat:
+            return False
+        at = flat.index(li)
+        return any(i in flat[:at] and i in flat[at + 1:] for i in range(len(cfg['causes'])) if i != li)
+
     def judge(cfg, obs):
         st['runs'] += 1
-        e = (obs.get('emit') or {}).get(cfg['side'][0]) or {}
+        e = ((obs.get('emit') or {}).get(cfg['side'][0]) or {}) if cfg.get('side') else {}
+        if not cfg.get('side'):
+            st['causes_only'] = st.get('causes_only', 0) + 1
+            if midway(cfg, obs):
+                st['causes_only_midway'] = st.get('causes_only_midway', 0) + 1
         if e.get('writes_pending_at_end'):
             st['window'] += 1           # the session ended while writes of the emit were still pending
         if any(wr['session_ended_before'] for wr in e.get('writes') or []):
@@ -1198,8 +1212,12 @@ def run_residue_schedules(ctx):
         fails = residue_oracle(obs)
         if fails and st['fails'] < 3:
             st['fails'] += 1
-            ctx.violation('oracle', 'asyncio schedule (an emit in flight while a member\'s transport is lost) leaves state for a '
-                          'client that is gone: %s' % fails,
+            ctx.violation('oracle', 'asyncio schedule (%s) leaves state for a client that is gone: %s' % (
+                              'an emit in flight while a member\'s transport is lost' if cfg.get('side') else
+                              'concurrent terminating causes %s of one session, the loss of its transport among them, '
+                              'suspended in %s, %s' % ('+'.join(cfg['causes']), cfg['mode'],
+                                                       'another client on the namespace' if cfg['others'] else
+                                                       'sole client of its namespaces'), fails),
                           {'kernel': 'sched_residue', 'cfg': cfg, 'sched': obs['sched'], 'oracle': fails,
                            'residue_probe': obs['residue_probe'], 'emit': obs.get('emit')})
         if len(st['samples']) < 3 and e.get('writes_pending_at_end') and st['window'] % 211 == 1:
@@ -1217,11 +1235,15 @@ def run_residue_schedules(ctx):
                 judge(cfg, obs)
                 if st['fails'] >= 3:
                     break
-            pos = [k for k, v in EMIT_POSITIONS.items() if v == cfg['emit_order']]
-            key = '+'.join(cfg['causes']) + '/' + cfg['mode'] + '/' + cfg['side'][0] + '/departed-' + \
-                (pos[0] if pos else 'in-' + '-'.join(cfg['emit_order'])) + ('/sampled' if sample else '')
+            if cfg.get('side'):
+                pos = [k for k, v in EMIT_POSITIONS.items() if v == cfg['emit_order']]
+                key = '+'.join(cfg['causes']) + '/' + cfg['mode'] + '/' + cfg['side'][0] + '/departed-' + \
+                    (pos[0] if pos else 'in-' + '-'.join(cfg['emit_order'])) + ('/sampled' if sample else '')
+            else:
+                key = '+'.join(cfg['causes']) + '/' + cfg['mode'] + '/no-emit' + \
+                    ('/shared-ns' if cfg['others'] else '/sole-member') + ('/sampled' if sample else '')
             st['per_config'][key] = st['per_config'].get(key, 0) + n
-            ctx.count('residue_sched:' + cfg['side'][0], n)
+            ctx.count('residue_sched:' + (cfg['side'][0] if cfg.get('side') else 'causes_only'), n)
             ctx.count('residue_sched_causes:' + '+'.join(cfg['causes']), n)
 
     two = [['client', 'lost'], ['api', 'lost']]
@@ -1237,7 +1259,31 @@ def run_residue_schedules(ctx):
         run_cfgs([cfg_of(cs, 'callback_emit', pos, 'both') for cs in two for pos in positions], sample=20)
         run_cfgs([cfg_of(cs, k, ctx.rng.choice(positions), 'both') for cs in two for k in SIDE_EMIT if k != 'callback_emit'],
                  sample=10)
+    # no emit at all: two (thorough: three) terminating causes of ONE session -- always the loss of its transport among
+    # them, so that the client is gone at the end -- suspended in the disconnect handler / in the send / in both, the
+    # session the sole member of its namespaces or not: every release order (simultaneous starts included)
+    def plain(causes, mode, others):
+        return {'causes': list(causes), 'mode': mode, 'others': others, 'conn': False, 'residue': True}
+    modes = ('handler', 'send', 'both')
+    run_cfgs([plain(cs, md, o) for cs in two for md in modes for o in (False, True)])
+    three = [['client', 'api', 'lost'], ['client', 'client', 'lost'], ['api', 'api', 'lost']]
+    if ctx.thorough:
+        run_cfgs([plain(cs, md, o) for cs in three for md in modes for o in (False, True)])
+    else:
+        run_cfgs([plain(three[0], 'both', o) for o in (False, True)])
+        run_cfgs([plain(cs, 'both', ctx.rng.random() < 0.5) for cs in three[1:]], sample=25)
     cov = ctx.coverage
+    cov['residue_schedules_causes_only'] = st.get('causes_only', 0)
+    cov['residue_schedules_causes_only_transport_lost_while_another_cause_midway'] = st.get('causes_only_midway', 0)
+    cov['residue_causes_only_rule'] = (
+        'ORACLE ONLY, no emit involved: client DISCONNECT / disconnect() racing the LOSS OF THE TRANSPORT of the same '
+        'session (two causes: all release orders incl. simultaneous starts; three causes: ' +
+        ('all release orders' if ctx.thorough else 'the three distinct causes: all release orders, suspension in both; '
+         'repeated causes sampled') + '), each suspended in the disconnect handler, in the '
+        'transport send, or both; the session the sole member of its namespaces / sharing the namespace with another '
+        'client. Judged at quiescence by the same model-free residue probe: no reference to the departed transport or its '
+        'session ids anywhere in the server\'s object graph, pending-disconnect marks included; graph back to its '
+        'pre-client size when everyone has left')
     cov['residue_schedules'] = st['runs']
     cov['residue_schedules_session_ended_while_writes_pending'] = st['window']
     cov['residue_schedules_per_config'] = st['per_config']
